@@ -65,7 +65,7 @@ func DefaultInitAllow(path string) bool {
 		return false // reflection registry; RegisterStruct is stubbed
 	}
 	if strings.HasPrefix(path, "github.com/cloudwego/") || strings.HasPrefix(path, "github.com/apache/thrift") ||
-		strings.HasPrefix(path, "github.com/bytedance/gopkg") || strings.HasPrefix(path, "zzgen/") || path == "zzgen" {
+		strings.HasPrefix(path, "github.com/bytedance/gopkg") || strings.HasPrefix(path, "zzgen/") || path == "zzgen" || strings.HasPrefix(path, "verif/") {
 		return true
 	}
 	return false
